@@ -25,6 +25,11 @@ def scenarios(ctx):
             scs.append(kplib.scenario(mode, kind, extra_opts=['-i', '1']))
             scs.append(kplib.scenario(mode, kind, extra_prog=EVIL))
             scs.append(kplib.scenario(mode, kind, pre={'rebind_argv': True, 'rebind_path': True}))
+    # the embedding application had set the importable decorator up itself before calling kernprof
+    for mode in ('l', 'b', 'lm', 'plain'):
+        for kind in ('none', 'error'):
+            for ps in ('enabled', 'disabled'):
+                scs.append(kplib.scenario(mode, kind, pre={'profile_state': ps}))
     for mode in ('l', 'b', 'plain', 'lm'):
         scs.append(kplib.scenario(mode, 'none', extra_opts=['-s', 'setup.py'], files={'setup.py': 'import sys\nsys.path.append("/from-setup")\n'}))
         s = kplib.scenario(mode, 'none', extra_opts=['-s', 'setup.py'], files={'setup.py': 'raise ValueError("setup fails")\n'})
@@ -74,7 +79,7 @@ def oracle(run):
         bad.append({'profiler_left_enabled': {'trace_function': a['trace'], 'monitoring_tool': a['tool']}})
     if (a['profile_enabled'], a['profile_has_profiler']) != (b['profile_enabled'], b['profile_has_profiler']):
         bad.append({'line_profiler.profile': {'before': [b['profile_enabled'], b['profile_has_profiler']], 'after': [a['profile_enabled'], a['profile_has_profiler']]}})
-    if run['profile_usable'] != 'same':
+    if run['profile_usable'] != ('wrapped' if b['profile_enabled'] else 'same'):
         bad.append({'@line_profiler.profile afterwards': run['profile_usable']})
     return bad
 
